@@ -73,4 +73,51 @@ def probe_c06(oblig, tier, seed):
     return {'found': False, 'tried': tried}
 
 
-PROBES = {'C03': probe_c03, 'C06': probe_c06}
+PARGS = '#!/bin/sh\nfor a in "$@"; do printf "[%s]\\n" "$a"; done\n'
+
+
+def probe_c01(oblig, tier, seed):
+    """argument lists written in single / double quotes over the metacharacter alphabet; the program must receive them verbatim."""
+    alpha = ['&', '<', '<<<', '|', ';', '>', '>>', '2>&1', '#', '*', '~', '{a,b}', '$HOME', 'a b', '']
+    rnd = random.Random(seed)
+    cases = []
+    for a in alpha:
+        for q in ("'", '"'):
+            if q == '"' and '$' in a:
+                continue
+            cases.append([(q, a)])
+            cases.append([("'", 'x'), (q, a)])
+            cases.append([(q, a), ("'", 'y')])
+    tried = 0
+    for args in cases:
+        line = './pargs ' + ' '.join(q + a + q for q, a in args)
+        w = {'line': line, 'files': {'pargs': PARGS}, 'expect_stdout': ''.join('[%s]\n' % a for q, a in args), 'timeout': 5}
+        tried += 1
+        bad, detail = W.violates(w, W.observe(w))
+        if bad:
+            return _found(w, detail)
+    return {'found': False, 'tried': tried}
+
+
+def probe_c05(oblig, tier, seed):
+    """every short string over the shell alphabet through the real binary under a watchdog: no panic, no hang."""
+    alpha = ['>', '<', '|', '&', ';', "'", '"', '$', '(', ')', '{', '}', 'a', ' ', '`', '2', '.']
+    n = 3 if tier == 'quick' else 4
+    lines = ['> f', '<', '2>&1', 'ls | > f', 'echo $(echo >)', 'echo {2147483646..2147483647}', "X='$X'; echo $X",
+             '99999999999999999999 + 1', '2 ^ 64', '2 ^ -1']
+    rnd = random.Random(seed)
+    allc = [''.join(t) for k in range(1, n + 1) for t in itertools.product(alpha, repeat=k)]
+    rnd.shuffle(allc)
+    lines += allc[:600 if tier == 'quick' else 4000]
+    fn = (oblig.get('fn') or '')
+    tried = 0
+    for line in lines:
+        w = {'line': line, 'timeout': 4}
+        tried += 1
+        bad, detail = W.violates(w, W.observe(w))
+        if bad:
+            return _found(w, detail)
+    return {'found': False, 'tried': tried}
+
+
+PROBES = {'C01': probe_c01, 'C13': probe_c01, 'C05': probe_c05, 'C03': probe_c03, 'C06': probe_c06}
